@@ -51,34 +51,73 @@ def floor_arrays(trench, bed=False):
     return x_floor, y_floor, [bool(v) for v in f_decel]
 
 
+def build_columns(utrench, specs):
+    """specs: list of (calls of the waveguides, column kwargs incl. optional 'reparameterised' values) -> columns"""
+    from femto.waveguide import Waveguide
+    from femto.trench import TrenchColumn, UTrenchColumn
+    cols = []
+    for calls_all, kw, wg_param in specs:
+        wgs = []
+        with pgm.quiet():
+            for calls in calls_all:
+                wg = Waveguide(**wg_param)
+                for c in calls:
+                    if c[0] == 'start':
+                        wg.start(list(c[1]))
+                    elif c[0] == 'linear':
+                        wg.linear(list(c[1]), mode=c[2])
+                    elif c[0] == 'sin_coupler':
+                        wg.sin_coupler(c[1])
+                    elif c[0] == 'arc_bend':
+                        wg.arc_bend(c[1])
+                    elif c[0] == 'sin_bridge':
+                        wg.sin_bridge(c[1], dz=c[2])
+                    elif c[0] == 'end':
+                        wg.end()
+                wgs.append(wg)
+            base = {k: v for k, v in kw.items() if k not in ('reparameterised', 'built_with')}
+            built = dict(base, **kw.get('built_with', {}))
+            col = (UTrenchColumn if utrench else TrenchColumn)(**built)
+            col.dig_from_waveguide(wgs)
+            if kw.get('reparameterised'):
+                _ = (col.n_repeat, col.fabrication_time, col.total_height)
+                col.h_box, col.deltaz, col.z_off = kw['h_box'], kw['deltaz'], kw['z_off']
+        cols.append(col)
+    return cols
+
+
 def run_case(rng):
-    from femto.writer import TrenchWriter, UTrenchWriter
-    for p in pathlib.Path('.').iterdir():
-        shutil.rmtree(p) if p.is_dir() else p.unlink()
     utrench = rng.random() < 0.35
     ncols = rng.choice([1, 1, 2])
     cfgd = pgm.gen_cfg(rng, allow_bad_laser=False)
     cfgd['output_digits'] = rng.choice([6, 6, 5, 9])
     cfgd['export_dir'] = rng.choice(['', 'out'])
-    cols, descrs = [], []
+    specs = []
     for _ in range(ncols):
         wgs, descr = layouts.gen_layout(rng)
         col, kw = layouts.gen_column(rng, descr, utrench)
-        kw_base = kw['base_folder']
-        with pgm.quiet():
-            col.dig_from_waveguide(wgs)
         if rng.random() < 0.3:
             # the column's depth parameters are public attributes: read the estimates, then change them before exporting
-            _ = (col.n_repeat, col.fabrication_time, col.total_height)
-            col.h_box = kw['h_box'] = rng.choice([0.05, 0.075, 0.1])
-            col.deltaz = kw['deltaz'] = rng.choice([0.02, 0.01, 0.033])
-            col.z_off = kw['z_off'] = rng.choice([-0.02, 0.0])
+            kw['built_with'] = {k: kw[k] for k in ('h_box', 'deltaz', 'z_off')}
+            kw['h_box'] = rng.choice([0.05, 0.075, 0.1])
+            kw['deltaz'] = rng.choice([0.02, 0.01, 0.033])
+            kw['z_off'] = rng.choice([-0.02, 0.0])
             kw['reparameterised'] = True
-        cols.append(col)
-        descrs.append({'layout': {k: v for k, v in descr.items() if k != 'calls'}, 'column': kw, 'blocks': len(col._trench_list)})
-    if len({c.base_folder for c in cols}) > 1:
-        for c in cols:
-            c.base_folder = cols[0].base_folder
+        wg_param = dict(speed=20, radius=wgs[0].radius, pitch=descr['pitch'], int_dist=0.007, int_length=0.0, cmd_rate_max=400,
+                        samplesize=(8, 3), lsafe=1)
+        specs.append((descr['calls'], kw, wg_param))
+    if len({k['base_folder'] for _, k, _ in specs}) > 1:
+        for _, k, _ in specs:
+            k['base_folder'] = specs[0][1]['base_folder']
+    return eval_case(cfgd, utrench, specs)
+
+
+def eval_case(cfgd, utrench, specs):
+    from femto.writer import TrenchWriter, UTrenchWriter
+    for p in pathlib.Path('.').iterdir():
+        shutil.rmtree(p) if p.is_dir() else p.unlink()
+    cols = build_columns(utrench, specs)
+    descrs = [{'calls': calls, 'column': kw, 'wg_param': wp, 'blocks': len(col._trench_list)} for (calls, kw, wp), col in zip(specs, cols)]
     W = (UTrenchWriter if utrench else TrenchWriter)(list(cols), filename='dev.pgm', **cfgd)
     raised = None
     try:
@@ -224,5 +263,16 @@ def run(rep: common.Report, tier: str, seed: int):
 
 
 def replay(data):
-    print('replay: rerun bin/check C06 quick with VERIF_SEED=%s' % data.get('seed'))
-    return 1
+    c = data['input']
+    if not all('calls' in col for col in c['columns']):
+        print('replay: this file predates stored layouts; rerun bin/check C06 %s with VERIF_SEED=%s' % (data.get('tier'), data.get('seed')))
+        return 1
+    common.fresh_cwd('C06')
+    specs = [(col['calls'], col['column'], col['wg_param']) for col in c['columns']]
+    lit, d = eval_case(c['cfg'], c['utrench'], specs)
+    if lit is None:
+        print('replay: export raised', d['raised'])
+        return 1
+    fails = common.run_model('C06', 'Harness.C06', 'C06.case', 'C06.failing', [lit], tag='replay', extra_imports=IMPORTS, timeout=1500)
+    print('replay:', 'FAILS' if fails or d['shapely_outside'] else 'passes', fails, d['shapely_outside'][:2])
+    return 1 if fails or d['shapely_outside'] else 0
